@@ -108,6 +108,9 @@ def c10_classifier():
                 info["prop_fail"] = "tokenize-panic-uncovered-category"
                 info["why"] = "accepted dictionary panics in tokenize (category without unk.def entry)"
                 tags.append("tokenize=panic-uncovered")
+            elif any(len(p.split()) >= 2 and p.split()[0].startswith("D") and p.split()[1] == "panic" for p in impl.split(" ; ")):
+                info["prop_fail"] = "dictionary-operation-panic"
+                info["why"] = "a mutating call on an accepted dictionary (user lexicon / id mapping / write-read) panicked"
             else:
                 info["prop_fail"] = "tokenize-panic"
                 info["why"] = "an accepted dictionary panicked while tokenizing"
@@ -131,6 +134,16 @@ def c10_classifier():
         return info
     on_case.on_def = on_def
     return on_case
+
+
+def c10_streams(tier, seed):
+    q = tier == "quick"
+    c = c10_classifier()
+    return [(["tok", "c10", str(seed), "1500" if q else "60000"], c),
+            # histories of the mutating API on accepted dictionaries (builders_total_any_history): mappings of wrong
+            # length on one side, user lexicons with malformed rows, write/read
+            (["tok", "c06", str(seed + 5), "400" if q else "12000"], c),
+            (["tok", "c08", str(seed + 5), "300" if q else "8000"], c)]
 
 
 def has_dops(line, impl, mobs):
@@ -477,7 +490,16 @@ def extract_classifier(kinds):
             if impl.startswith("ok") and mobs.startswith("err"):
                 info["prop_fail"] = "mecab-malformed-accepted"
                 info["why"] = "generate_bigram_info accepted an input that must be reported as an error (gap / malformed id line / id 0)"
-            if flags.get("MECABCOST") == "0":
+            if flags.get("MECABSPEC", "").startswith("0"):
+                # decider = the property itself: the raw connector compiled (C07 model) from the implementation's files
+                # against the template sums of the MeCab inputs (C20e2e.mecab_compiled_cost_eq_sum)
+                if flags.get("NOBIGRAM") == "1":
+                    info["prop_fail"] = "no-bigram-template-charges-bos-eos-cost"
+                else:
+                    info["prop_fail"] = "compiled-cost-differs-from-template-sum"
+                info["why"] = ("a dictionary compiled from the generated bigram files has a connection cost other than the sum of the "
+                               "model.def lines of the templates that apply: " + flags.get("MECABSPEC"))
+            elif flags.get("MECABCOST") == "0":
                 # the generated files differ from the model's AND give different connection costs; the model's costs
                 # are the model.def sums (theorem mecab_cost_eq_sum)
                 info["prop_fail"] = "mecab-costs-differ-from-model-def-sums"
@@ -673,17 +695,24 @@ PROPS = {
         "assumptions": ["classes_spec / tuple_listed are stated over the abstract first-appearance numbering (classesOf); the file-level statement is covered by the trainer model's differential run (C14/C16 streams)"],
     },
     "C20": {
-        "modules": ["Vibrato.Props.C20", "Vibrato.Proofs.MecabBridge"],
+        "modules": ["Vibrato.Props.C20", "Vibrato.Proofs.MecabBridge", "Vibrato.Props.C20e2e"],
         "theorems": ["Vibrato.Props.C20.mecab_cost_eq_sum", "Vibrato.Props.C20.ids_dense_increasing",
                      "Vibrato.Props.C20.gap_rejected", "Vibrato.Props.C20.gap_rejected_fixed",
                      "Vibrato.Props.C20.malformed_rejected", "Vibrato.Props.C20.zero_not_bos_rejected",
-                     "Vibrato.Props.C20.f12_largest_id_dropped", "Vibrato.Props.C20.f12_fixed_rejects"],
+                     "Vibrato.Props.C20.f12_largest_id_dropped", "Vibrato.Props.C20.f12_fixed_rejects",
+                     # end to end: the COMPILED raw connector (model of C07) on the generated bytes returns the template sums
+                     "Vibrato.Props.C20e2e.render_parse_costs", "Vibrato.Props.C20e2e.render_parse_rows",
+                     "Vibrato.Props.C20e2e.generated_files_parse_back", "Vibrato.Props.C20e2e.mecab_compiled_cost_eq_sum",
+                     "Vibrato.Props.C20e2e.mecab_compiled_cost_eq_sum_small", "Vibrato.Props.C20e2e.mecab_compiled_cost_eq_sum_bounded",
+                     "Vibrato.Props.C20e2e.zero_templates_counterexample", "Vibrato.Props.C20e2e.no_rows_fails"],
         "streams": with_cli(extract_streams(("mecab",), 1500, 30000), {"conn": mecab_example_classify}, ("mecab-",), 20, 600),
         "rule": "random MeCab model descriptions: feature.def with optional %L?/%R? references, id tables (gaps, id 0 missing or not "
                 "BOS/EOS, bad separators, invalid UTF-8), model.def with positive/negative/zero/unmatched weights and extreme "
-                "cost factors; the three generated files compared byte for byte with the model",
+                "cost factors; the three generated files compared byte for byte with the model, and the connector compiled from the "
+                "implementation's files compared with the template sums of the inputs (MECABSPEC)",
         "trusted_base": ["decimal-to-f64 conversion of str::parse::<f64> modelled by an exact correctly rounded conversion (validated against Rust)"] + TRAINER_TB[1:2],
-        "assumptions": ["the text round trip from the rendered files into the raw connector's parser is not proved (stated in Props/C20.lean); the connector side is C07"],
+        "assumptions": ["hypotheses of the end-to-end theorem: at least one BIGRAM template (without one: known finding F25), some id >= 1, "
+                        "fewer than 65536 bigram.cost lines (or the explicit scorer-build hypothesis), i32 bound on the per-pair sum"],
     },
     "C07": {
         "modules": ["Vibrato.Props.C07"],
@@ -757,7 +786,7 @@ PROPS = {
                      "Vibrato.wf_is_safe", "Vibrato.accepted_is_safe", "Vibrato.accepted_tokenizes",
                      "Vibrato.no_silent_miscategorisation", "Vibrato.packing_roundtrip_param", "Vibrato.layout_fits",
                      "Vibrato.astral_reads_entry_zero", "Vibrato.f9_accepted_dictionary_panics"],
-        "streams": tok_streams("c10", 1500, 60000, c10_classifier()),
+        "streams": c10_streams,
         "rule": "valid definition files from the structured generator + one corruption per case (16 kinds: empty file, byte "
                 "delete/insert/replace, cut, drop/duplicate field, swapped lines, out-of-range numbers, CRLF, BOM, missing final newline, "
                 "trailing blank lines, undefined names, targeted char.def lines, many categories, random bytes); accepted dictionaries are "
